@@ -165,7 +165,10 @@ def initiator():
 
 def case_strategy():
     return st.fixed_dictionaries({"entry": st.sampled_from(["init_device", "init_device", "SCSIDevice", "ISCSIDevice"]),
-                                  "dev": dev_string(), "rw": st.booleans(), "initiator": initiator()})
+                                  "dev": dev_string(), "rw": st.booleans(), "initiator": initiator(),
+                                  # init_device as exported by the package (pyscsi.init_device) or by pyscsi.utils,
+                                  # called with positional or keyword arguments
+                                  "via": st.sampled_from(["utils", "package"]), "kw": st.booleans()})
 
 
 def check_case(case):
@@ -180,7 +183,15 @@ def check_case(case):
     is_iscsi = dev[:8] == "iscsi://"
     if entry == "init_device":
         want = "scsi" if (is_dev and _CFG["sgio"]) else ("iscsi" if (is_iscsi and _CFG["iscsi"]) else None)
-        call = (lambda: init_device(dev, rw)) if ini is None else (lambda: init_device(dev, rw, ini))
+        if case.get("via") == "package":
+            import pyscsi
+
+            init_device = pyscsi.init_device
+        if case.get("kw"):
+            call = (lambda: init_device(dev, read_write=rw)) if ini is None else (
+                lambda: init_device(dev, read_write=rw, initiator_name=ini))
+        else:
+            call = (lambda: init_device(dev, rw)) if ini is None else (lambda: init_device(dev, rw, ini))
         want_name = ini if ini is not None else "iqn.2018-01.org.pyscsi:%s" % socket.gethostname()
     elif entry == "SCSIDevice":
         want = "scsi" if (is_dev and _CFG["sgio"]) else None
